@@ -335,6 +335,14 @@ func c11Run(c *Ctx) {
 			Lines(Var("cur", lit), Var("snaps", "[]"), For(Var("i", "0"), "i < 3", "i = i + 1", "{ snaps = "+BI("append", "snaps", "cur")+"; cur = "+BI("append", "cur", "i + 80")+"; }"), "cur[0] = 98;", Print("snaps"), Print("cur")),
 			Lines(Fun("grow", "x", " x = "+BI("append", "x", "70")+"; x[0] = 71; "+Ret("x")+" "), Var("mine", lit), Var("got", "grow(mine)"), Print("mine"), Print("got"), Var("again", "grow(mine)"), Print("mine"), Print("got"), Print("again")))
 	}
+	// recursion through one call expression in a later argument, run more than once: what এড / the callee receives is what was passed
+	selfAppend = append(selfAppend,
+		Lines(Fun("chain", "n", " "+If("n == 0", "{ "+Ret("[]")+" }")+" "+Ret(BI("append", "[n]", "chain(n - 1)"))+" "), Print("chain(3)"), Print("chain(3)"), Print("chain(2)")),
+		Lines(Fun("grow", "a, n", " "+If("n == 0", "{ "+Ret("a")+" }")+" "+Ret(BI("append", "a", "n", BI("len", "grow(a, n - 1)")))+" "), Var("base", "[0]"), Print("grow(base, 3)"), Print("grow(base, 3)"), Print("base")),
+		Lines(Fun("merge", "l, r", " "+Var("out", "[]")+" "+Var("i", "0")+" "+Var("j", "0")+" "+While("i < "+BI("len", "l")+" && j < "+BI("len", "r"), "{ "+IfElse("l[i] <= r[j]", "{ out = "+BI("append", "out", "l[i]")+"; i = i + 1; }", "{ out = "+BI("append", "out", "r[j]")+"; j = j + 1; }")+" }")+" "+While("i < "+BI("len", "l"), "{ out = "+BI("append", "out", "l[i]")+"; i = i + 1; }")+" "+While("j < "+BI("len", "r"), "{ out = "+BI("append", "out", "r[j]")+"; j = j + 1; }")+" "+Ret("out")+" "),
+			Fun("half", "a, from, to", " "+Var("o", "[]")+" "+For(Var("k", "from"), "k < to", "k = k + 1", "{ o = "+BI("append", "o", "a[k]")+"; }")+" "+Ret("o")+" "),
+			Fun("sort", "a", " "+If(BI("len", "a")+" < 2", "{ "+Ret("a")+" }")+" "+Var("m", BI("round", BI("len", "a")+" / 2 - 0.25"))+" "+Ret("merge(sort(half(a, 0, m)), sort(half(a, m, "+BI("len", "a")+")))")+" "),
+			Var("data", "[5, 3, 8, 1, 9, 2, 7]"), Print("sort(data)"), Print("sort([4, 4, 1, 0, 6])"), Print("data")))
 	for _, src := range append(selfAppend, []string{
 		Lines(Var("a", "[1, 2, 3]"), Var("b", BI("append", "a", "4")), Var("cc", BI("append", "a", "5")), Print("a"), Print("b"), Print("cc"), "b[0] = 9;", Print("a"), Print("b"), Print("cc")),
 		Lines(Var("a", "[1, 2, 3, 4]"), Var("b", BI("remove", "a", "0")), Print("a"), Print("b"), Var("d", BI("remove", "a", "3")), "d[0] = 7;", Print("a"), Print("d")),
